@@ -2,12 +2,12 @@
 
    Gallina definition   <-> source (pinned commit 841ec91)
    py_get / py_set      <-> sc62015/pysc62015/emulator.py  Registers.get / Registers.set
-                            (BASE registers masked on write, rPC/rX/rY/rU/rS additionally masked to 20 bits on
-                             read; sub-registers through _SUBREG_INFO; rIL write clears rIH)
+                            (BASE registers masked on write, gPC/gX/gY/gU/gS additionally masked to 20 bits on
+                             read; sub-registers through _SUBREG_INFO; gIL write clears gIH)
    py_capture / py_apply<-> sc62015/pysc62015/stepper.py  CPURegistersSnapshot.from_registers / apply_to
    py_pack / py_unpack  <-> pce500/emulator.py  _pack_register_bytes / _unpack_register_bytes
    rs_get / rs_set      <-> sc62015/core/src/llama/state.rs  LlamaState::get_reg / set_reg
-                            (HashMap with separate rF, rFC, rFZ entries and unwrap_or defaults)
+                            (HashMap with separate gF, gFC, gFZ entries and unwrap_or defaults)
    rs_collect / rs_apply<-> sc62015/core/src/lib.rs  collect_registers / apply_registers
    rs_pack / rs_unpack  <-> sc62015/core/src/snapshot.rs  pack_registers / unpack_registers
 
@@ -19,7 +19,7 @@ Import ListNotations.
 Open Scope N_scope.
 
 Inductive reg :=
-  | rA | rB | rBA | rIL | rIH | rI | rX | rY | rU | rS | rPC | rF | rFC | rFZ | rTEMP (i : nat).
+  | gA | gB | gBA | gIL | gIH | gI | gX | gY | gU | gS | gPC | gF | gFC | gFZ | gTEMP (i : nat).
 
 Definition NTEMP : nat := 14.
 
@@ -44,77 +44,77 @@ Fixpoint upd {T} (l : list T) (i : nat) (v : T) : list T :=
 
 Definition py_get (s : pyregs) (r : reg) : N :=
   match r with
-  | rBA => y_ba s
-  | rI => y_i s
-  | rX => y_x s mod p20 | rY => y_y s mod p20 | rU => y_u s mod p20 | rS => y_s s mod p20 | rPC => y_pc s mod p20
-  | rF => y_f s
-  | rA => y_ba s mod p8                     (* (rBA >> 0) & 0xFF *)
-  | rB => (y_ba s / p8) mod p8              (* (rBA >> 8) & 0xFF *)
-  | rIL => y_i s mod p8
-  | rIH => (y_i s / p8) mod p8
-  | rFC => y_f s mod 2
-  | rFZ => (y_f s / 2) mod 2
-  | rTEMP i => nth i (y_t s) 0
+  | gBA => y_ba s
+  | gI => y_i s
+  | gX => y_x s mod p20 | gY => y_y s mod p20 | gU => y_u s mod p20 | gS => y_s s mod p20 | gPC => y_pc s mod p20
+  | gF => y_f s
+  | gA => y_ba s mod p8                     (* (gBA >> 0) & 0xFF *)
+  | gB => (y_ba s / p8) mod p8              (* (gBA >> 8) & 0xFF *)
+  | gIL => y_i s mod p8
+  | gIH => (y_i s / p8) mod p8
+  | gFC => y_f s mod 2
+  | gFZ => (y_f s / 2) mod 2
+  | gTEMP i => nth i (y_t s) 0
   end.
 
 (* replace the byte at `shift` (0 or 8) of a 16-bit base *)
 Definition set_lo (cur v : N) : N := (cur mod p16) - (cur mod p16) mod p8 + v mod p8.
 Definition set_hi (cur v : N) : N := (cur mod p16) mod p8 + (v mod p8) * p8.
-(* replace bit 0 / bit 1 of the 8-bit rF *)
+(* replace bit 0 / bit 1 of the 8-bit gF *)
 Definition set_b0 (cur v : N) : N := (cur mod p8) - (cur mod p8) mod 2 + v mod 2.
 Definition set_b1 (cur v : N) : N := (cur mod p8) - ((cur mod p8) / 2 mod 2) * 2 + (v mod 2) * 2.
 
 Definition py_set (s : pyregs) (r : reg) (v : N) : pyregs :=
   let '(Build_pyregs ba i x y u sp pc f t) := s in
   match r with
-  | rBA => Build_pyregs (v mod p16) i x y u sp pc f t
-  | rI => Build_pyregs ba (v mod p16) x y u sp pc f t
-  | rX => Build_pyregs ba i (v mod p20) y u sp pc f t
-  | rY => Build_pyregs ba i x (v mod p20) u sp pc f t
-  | rU => Build_pyregs ba i x y (v mod p20) sp pc f t
-  | rS => Build_pyregs ba i x y u (v mod p20) pc f t
-  | rPC => Build_pyregs ba i x y u sp (v mod p20) f t
-  | rF => Build_pyregs ba i x y u sp pc (v mod p8) t
-  | rA => Build_pyregs (set_lo ba v) i x y u sp pc f t
-  | rB => Build_pyregs (set_hi ba v) i x y u sp pc f t
-  | rIL => Build_pyregs ba (v mod p8) x y u sp pc f t          (* writing rIL clears rIH *)
-  | rIH => Build_pyregs ba (set_hi i v) x y u sp pc f t
-  | rFC => Build_pyregs ba i x y u sp pc (set_b0 f v) t
-  | rFZ => Build_pyregs ba i x y u sp pc (set_b1 f v) t
-  | rTEMP k => Build_pyregs ba i x y u sp pc f (if Nat.ltb k NTEMP then upd t k (v mod p24) else t)
+  | gBA => Build_pyregs (v mod p16) i x y u sp pc f t
+  | gI => Build_pyregs ba (v mod p16) x y u sp pc f t
+  | gX => Build_pyregs ba i (v mod p20) y u sp pc f t
+  | gY => Build_pyregs ba i x (v mod p20) u sp pc f t
+  | gU => Build_pyregs ba i x y (v mod p20) sp pc f t
+  | gS => Build_pyregs ba i x y u (v mod p20) pc f t
+  | gPC => Build_pyregs ba i x y u sp (v mod p20) f t
+  | gF => Build_pyregs ba i x y u sp pc (v mod p8) t
+  | gA => Build_pyregs (set_lo ba v) i x y u sp pc f t
+  | gB => Build_pyregs (set_hi ba v) i x y u sp pc f t
+  | gIL => Build_pyregs ba (v mod p8) x y u sp pc f t          (* writing gIL clears gIH *)
+  | gIH => Build_pyregs ba (set_hi i v) x y u sp pc f t
+  | gFC => Build_pyregs ba i x y u sp pc (set_b0 f v) t
+  | gFZ => Build_pyregs ba i x y u sp pc (set_b1 f v) t
+  | gTEMP k => Build_pyregs ba i x y u sp pc f (if Nat.ltb k NTEMP then upd t k (v mod p24) else t)
   end.
 
 (* CPURegistersSnapshot: pc ba i x y u s f + temps (only non-zero ones are stored; absent = 0) *)
 Record snapshot := { sn_pc : N; sn_ba : N; sn_i : N; sn_x : N; sn_y : N; sn_u : N; sn_s : N; sn_f : N; sn_t : list N }.
 
 Definition py_capture (s : pyregs) : snapshot :=
-  {| sn_pc := py_get s rPC; sn_ba := py_get s rBA; sn_i := py_get s rI; sn_x := py_get s rX; sn_y := py_get s rY;
-     sn_u := py_get s rU; sn_s := py_get s rS; sn_f := py_get s rF;
-     sn_t := map (fun k => py_get s (rTEMP k)) (seq 0 NTEMP) |}.
+  {| sn_pc := py_get s gPC; sn_ba := py_get s gBA; sn_i := py_get s gI; sn_x := py_get s gX; sn_y := py_get s gY;
+     sn_u := py_get s gU; sn_s := py_get s gS; sn_f := py_get s gF;
+     sn_t := map (fun k => py_get s (gTEMP k)) (seq 0 NTEMP) |}.
 
 Fixpoint py_apply_temps (s : pyregs) (k : nat) (l : list N) : pyregs :=
   match l with
   | [] => s
-  | v :: r => py_apply_temps (py_set s (rTEMP k) v) (Datatypes.S k) r
+  | v :: r => py_apply_temps (py_set s (gTEMP k) v) (Datatypes.S k) r
   end.
 
 Definition py_apply (sn : snapshot) (s : pyregs) : pyregs :=
-  let s := py_set s rPC (sn_pc sn) in let s := py_set s rBA (sn_ba sn) in let s := py_set s rI (sn_i sn) in
-  let s := py_set s rX (sn_x sn) in let s := py_set s rY (sn_y sn) in let s := py_set s rU (sn_u sn) in
-  let s := py_set s rS (sn_s sn) in let s := py_set s rF (sn_f sn) in
+  let s := py_set s gPC (sn_pc sn) in let s := py_set s gBA (sn_ba sn) in let s := py_set s gI (sn_i sn) in
+  let s := py_set s gX (sn_x sn) in let s := py_set s gY (sn_y sn) in let s := py_set s gU (sn_u sn) in
+  let s := py_set s gS (sn_s sn) in let s := py_set s gF (sn_f sn) in
   py_apply_temps s 0 (sn_t sn).
 
-(* register blob: rPC 3, rBA 2, rI 2, rX 3, rY 3, rU 3, rS 3, rF 1 bytes, little endian *)
+(* register blob: gPC 3, gBA 2, gI 2, gX 3, gY 3, gU 3, gS 3, gF 1 bytes, little endian *)
 Fixpoint le_bytes (n : nat) (v : N) : list N :=
   match n with O => [] | Datatypes.S m => (v mod p8) :: le_bytes m (v / p8) end.
 Fixpoint of_le (l : list N) : N :=
   match l with [] => 0 | b :: r => b + p8 * of_le r end.
 
-Definition blob_layout : list (reg * nat) := [(rPC, 3); (rBA, 2); (rI, 2); (rX, 3); (rY, 3); (rU, 3); (rS, 3); (rF, 1)]%nat.
+Definition blob_layout : list (reg * nat) := [(gPC, 3); (gBA, 2); (gI, 2); (gX, 3); (gY, 3); (gU, 3); (gS, 3); (gF, 1)]%nat.
 
 Definition snap_field (sn : snapshot) (r : reg) : N :=
-  match r with rPC => sn_pc sn | rBA => sn_ba sn | rI => sn_i sn | rX => sn_x sn | rY => sn_y sn | rU => sn_u sn
-             | rS => sn_s sn | rF => sn_f sn | _ => 0 end.
+  match r with gPC => sn_pc sn | gBA => sn_ba sn | gI => sn_i sn | gX => sn_x sn | gY => sn_y sn | gU => sn_u sn
+             | gS => sn_s sn | gF => sn_f sn | _ => 0 end.
 
 Definition pack (sn : snapshot) : list N :=
   flat_map (fun e => le_bytes (snd e) (snap_field sn (fst e))) blob_layout.
@@ -129,7 +129,7 @@ Fixpoint field_of (r : reg) (l : list (reg * N)) : N :=
   match l with
   | [] => 0
   | (k, v) :: t => match k, r with
-                   | rPC, rPC | rBA, rBA | rI, rI | rX, rX | rY, rY | rU, rU | rS, rS | rF, rF => v
+                   | gPC, gPC | gBA, gBA | gI, gI | gX, gX | gY, gY | gU, gU | gS, gS | gF, gF => v
                    | _, _ => field_of r t
                    end
   end.
@@ -137,8 +137,8 @@ Fixpoint field_of (r : reg) (l : list (reg * N)) : N :=
 Definition unpack (bs : list N) (temps : list N) : option snapshot :=
   if Nat.eqb (length bs) 20 then
     let fl := unpack_fields blob_layout bs in
-    Some {| sn_pc := field_of rPC fl; sn_ba := field_of rBA fl; sn_i := field_of rI fl; sn_x := field_of rX fl;
-            sn_y := field_of rY fl; sn_u := field_of rU fl; sn_s := field_of rS fl; sn_f := field_of rF fl; sn_t := temps |}
+    Some {| sn_pc := field_of gPC fl; sn_ba := field_of gBA fl; sn_i := field_of gI fl; sn_x := field_of gX fl;
+            sn_y := field_of gY fl; sn_u := field_of gU fl; sn_s := field_of gS fl; sn_f := field_of gF fl; sn_t := temps |}
   else None.
 
 (* ---------------------------------------------------------------- Rust *)
@@ -154,71 +154,71 @@ Definition dflt (o : option N) (d : N) : N := match o with Some v => v | None =>
 
 Definition rs_get (s : rsregs) (r : reg) : N :=
   match r with
-  | rBA => dflt (z_ba s) 0 mod p16
-  | rA => (dflt (z_ba s) 0 mod p16) mod p8
-  | rB => ((dflt (z_ba s) 0 mod p16) / p8) mod p8
-  | rI => dflt (z_i s) 0 mod p16
-  | rIL => (dflt (z_i s) 0 mod p16) mod p8
-  | rIH => ((dflt (z_i s) 0 mod p16) / p8) mod p8
-  | rF => let raw := dflt (z_f s) 0 mod p8 in
+  | gBA => dflt (z_ba s) 0 mod p16
+  | gA => (dflt (z_ba s) 0 mod p16) mod p8
+  | gB => ((dflt (z_ba s) 0 mod p16) / p8) mod p8
+  | gI => dflt (z_i s) 0 mod p16
+  | gIL => (dflt (z_i s) 0 mod p16) mod p8
+  | gIH => ((dflt (z_i s) 0 mod p16) / p8) mod p8
+  | gF => let raw := dflt (z_f s) 0 mod p8 in
          let fc := dflt (z_fc s) (raw mod 2) mod 2 in
          let fz := dflt (z_fz s) ((raw / 2) mod 2) mod 2 in
          (raw / 4) * 4 + fc + fz * 2                       (* (raw & !3) | fc | (fz << 1) *)
-  | rFC => let raw := dflt (z_f s) 0 mod p8 in dflt (z_fc s) raw mod 2
-  | rFZ => let raw := dflt (z_f s) 0 mod p8 in dflt (z_fz s) ((raw / 2) mod 2) mod 2
-  | rX => dflt (z_x s) 0 mod p20 | rY => dflt (z_y s) 0 mod p20 | rU => dflt (z_u s) 0 mod p20
-  | rS => dflt (z_s s) 0 mod p20 | rPC => dflt (z_pc s) 0 mod p20
-  | rTEMP k => dflt (nth k (z_t s) None) 0 mod p24
+  | gFC => let raw := dflt (z_f s) 0 mod p8 in dflt (z_fc s) raw mod 2
+  | gFZ => let raw := dflt (z_f s) 0 mod p8 in dflt (z_fz s) ((raw / 2) mod 2) mod 2
+  | gX => dflt (z_x s) 0 mod p20 | gY => dflt (z_y s) 0 mod p20 | gU => dflt (z_u s) 0 mod p20
+  | gS => dflt (z_s s) 0 mod p20 | gPC => dflt (z_pc s) 0 mod p20
+  | gTEMP k => dflt (nth k (z_t s) None) 0 mod p24
   end.
 
 Definition rs_set (s : rsregs) (r : reg) (v0 : N) : rsregs :=
   let v := v0 mod p32 in
   let '(Build_rsregs ba i x y u sp pc f fc fz t) := s in
   match r with
-  | rBA => Build_rsregs (Some (v mod p16)) i x y u sp pc f fc fz t
-  | rA => let b := (rs_get s rBA / p8) mod p8 in
+  | gBA => Build_rsregs (Some (v mod p16)) i x y u sp pc f fc fz t
+  | gA => let b := (rs_get s gBA / p8) mod p8 in
          Build_rsregs (Some ((b * p8 + (v mod p8) mod p8) mod p16)) i x y u sp pc f fc fz t
-  | rB => let a := rs_get s rBA mod p8 in
+  | gB => let a := rs_get s gBA mod p8 in
          Build_rsregs (Some ((((v mod p8) mod p8) * p8 + a) mod p16)) i x y u sp pc f fc fz t
-  | rI => Build_rsregs ba (Some (v mod p16)) x y u sp pc f fc fz t
-  | rIL => Build_rsregs ba (Some ((v mod p8) mod p16)) x y u sp pc f fc fz t
-  | rIH => let low := rs_get s rIL in
+  | gI => Build_rsregs ba (Some (v mod p16)) x y u sp pc f fc fz t
+  | gIL => Build_rsregs ba (Some ((v mod p8) mod p16)) x y u sp pc f fc fz t
+  | gIH => let low := rs_get s gIL in
           Build_rsregs ba (Some ((((v mod p8) mod p8) * p8 + low mod p8) mod p16)) x y u sp pc f fc fz t
-  | rF => let m := v mod p8 in
+  | gF => let m := v mod p8 in
          Build_rsregs ba i x y u sp pc (Some (m mod p8)) (Some (m mod 2)) (Some ((m / 2) mod 2)) t
-  | rFC => let bit := (v mod 2) mod 2 in
+  | gFC => let bit := (v mod 2) mod 2 in
           let fo := dflt f 0 mod p8 in
           Build_rsregs ba i x y u sp pc (Some (fo - fo mod 2 + bit)) (Some bit) fz t
-  | rFZ => let bit := (v mod 2) mod 2 in
+  | gFZ => let bit := (v mod 2) mod 2 in
           let fo := dflt f 0 mod p8 in
           Build_rsregs ba i x y u sp pc (Some (fo - ((fo / 2) mod 2) * 2 + bit * 2)) fc (Some bit) t
-  | rX => Build_rsregs ba i (Some (v mod p20)) y u sp pc f fc fz t
-  | rY => Build_rsregs ba i x (Some (v mod p20)) u sp pc f fc fz t
-  | rU => Build_rsregs ba i x y (Some (v mod p20)) sp pc f fc fz t
-  | rS => Build_rsregs ba i x y u (Some (v mod p20)) pc f fc fz t
-  | rPC => Build_rsregs ba i x y u sp (Some (v mod p20)) f fc fz t
-  | rTEMP k => Build_rsregs ba i x y u sp pc f fc fz (if Nat.ltb k NTEMP then upd t k (Some (v mod p24)) else t)
+  | gX => Build_rsregs ba i (Some (v mod p20)) y u sp pc f fc fz t
+  | gY => Build_rsregs ba i x (Some (v mod p20)) u sp pc f fc fz t
+  | gU => Build_rsregs ba i x y (Some (v mod p20)) sp pc f fc fz t
+  | gS => Build_rsregs ba i x y u (Some (v mod p20)) pc f fc fz t
+  | gPC => Build_rsregs ba i x y u sp (Some (v mod p20)) f fc fz t
+  | gTEMP k => Build_rsregs ba i x y u sp pc f fc fz (if Nat.ltb k NTEMP then upd t k (Some (v mod p24)) else t)
   end.
 
 (* collect_registers: layout registers masked to width_bytes*8 bits + TEMP0..13 masked to 24 bits *)
 Definition rs_collect (s : rsregs) : snapshot :=
-  {| sn_pc := rs_get s rPC mod p24; sn_ba := rs_get s rBA mod p16; sn_i := rs_get s rI mod p16;
-     sn_x := rs_get s rX mod p24; sn_y := rs_get s rY mod p24; sn_u := rs_get s rU mod p24; sn_s := rs_get s rS mod p24;
-     sn_f := rs_get s rF mod p8;
-     sn_t := map (fun k => rs_get s (rTEMP k) mod p24) (seq 0 NTEMP) |}.
+  {| sn_pc := rs_get s gPC mod p24; sn_ba := rs_get s gBA mod p16; sn_i := rs_get s gI mod p16;
+     sn_x := rs_get s gX mod p24; sn_y := rs_get s gY mod p24; sn_u := rs_get s gU mod p24; sn_s := rs_get s gS mod p24;
+     sn_f := rs_get s gF mod p8;
+     sn_t := map (fun k => rs_get s (gTEMP k) mod p24) (seq 0 NTEMP) |}.
 
 Fixpoint rs_apply_temps (s : rsregs) (k : nat) (l : list N) : rsregs :=
   match l with
   | [] => s
-  | v :: r => rs_apply_temps (rs_set s (rTEMP k) (v mod p24)) (Datatypes.S k) r
+  | v :: r => rs_apply_temps (rs_set s (gTEMP k) (v mod p24)) (Datatypes.S k) r
   end.
 
-(* apply_registers: value & mask_for_width(register_width(name)): rPC 20, rBA/rI 16, rX/rY/rU/rS 24, rF 8 *)
+(* apply_registers: value & mask_for_width(register_width(name)): gPC 20, gBA/gI 16, gX/gY/gU/gS 24, gF 8 *)
 Definition rs_apply (sn : snapshot) (s : rsregs) : rsregs :=
-  let s := rs_set s rPC (sn_pc sn mod p20) in let s := rs_set s rBA (sn_ba sn mod p16) in
-  let s := rs_set s rI (sn_i sn mod p16) in let s := rs_set s rX (sn_x sn mod p24) in
-  let s := rs_set s rY (sn_y sn mod p24) in let s := rs_set s rU (sn_u sn mod p24) in
-  let s := rs_set s rS (sn_s sn mod p24) in let s := rs_set s rF (sn_f sn mod p8) in
+  let s := rs_set s gPC (sn_pc sn mod p20) in let s := rs_set s gBA (sn_ba sn mod p16) in
+  let s := rs_set s gI (sn_i sn mod p16) in let s := rs_set s gX (sn_x sn mod p24) in
+  let s := rs_set s gY (sn_y sn mod p24) in let s := rs_set s gU (sn_u sn mod p24) in
+  let s := rs_set s gS (sn_s sn mod p24) in let s := rs_set s gF (sn_f sn mod p8) in
   rs_apply_temps s 0 (sn_t sn).
 
 (* ---------------------------------------------------------------- op streams for the driver *)
@@ -229,7 +229,7 @@ Inductive rop :=
   | OBlob.           (* capture, pack, unpack, apply to a fresh file; observe all *)
 
 Definition all_regs : list reg :=
-  [rA; rB; rBA; rIL; rIH; rI; rX; rY; rU; rS; rPC; rF; rFC; rFZ] ++ map rTEMP (seq 0 NTEMP).
+  [gA; gB; gBA; gIL; gIH; gI; gX; gY; gU; gS; gPC; gF; gFC; gFZ] ++ map gTEMP (seq 0 NTEMP).
 
 Definition py_obs_all (s : pyregs) : list N := map (py_get s) all_regs.
 Definition rs_obs_all (s : rsregs) : list N := map (rs_get s) all_regs.
